@@ -505,7 +505,7 @@ PROPS["C02"] = {
              "written as YAML and run through the exported Run with no peer commands (reference client, reference server, gRPC client, gRPC server all in process) under a drawn config (HTTP/1.1 and/or h2c x 3 protocols x 2 codecs x identity + one drawn compression); oracle: Run returns (true, nil) - any FAILED permutation is a disagreement between the derived expectation and the reference peers. "
              "Crash: unrestricted suites (any directive combination, missing names, unspecified stream types, request messages of the wrong type, unknown Any types, too many/too small expand directives, raw payloads in the wrong mode, duplicate names) through parseTestSuites + newTestCaseLibrary in all three modes: a panic is a violation, an error is fine; a native fuzz target does the same from raw YAML bytes seeded with the embedded corpus (thorough). "
              "Non-trivial: a case with an error carrying details, >=2 responses, zero requests, bidi with #responses != #requests, or a repeated/mixed-case/-bin header."),
-    "assumptions": ["the two recorded findings (known_findings.json: full-duplex with fewer responses than requests and no error; full-duplex with >=2 requests, no responses and an error) are excluded from the generator by construction and counted; their minimal inputs are executed by the Known unit on every run",
+    "assumptions": ["the recorded finding (known_findings.json: full-duplex with >=2 requests, no responses and an error) is excluded from the generator by construction and counted; its minimal input is executed by the Known unit on every run, which also runs four instances of the formerly recorded second shape (fewer responses than requests, no error; fix 9e063c6), which must pass",
                     "TLS and HTTP/3 are covered by C01; here they would only multiply cost"],
     "units": [
         {"name": "C02Agreement", "pkg": CC, "test": "TestVerifC02Agreement", "kind": "rapid",
